@@ -157,6 +157,9 @@ func repeatString(lhs *CandidateNode, rhs *CandidateNode) (*CandidateNode, error
 		return nil, fmt.Errorf("Cannot repeat string by a negative number (%v)", count)
 	} else if count > 10000000 {
 		return nil, fmt.Errorf("Cannot repeat string by more than 100 million (%v)", count)
+	} else if count > 0 && len(stringNode.Value) > 100000000/count {
+		// the limit on the count alone does not bound the result: ("x" * 10000000) * 10000000
+		return nil, fmt.Errorf("Cannot repeat a string of %v bytes %v times: the result would exceed 100 million bytes", len(stringNode.Value), count)
 	}
 	target.Value = strings.Repeat(stringNode.Value, count)
 
